@@ -733,8 +733,9 @@ class _ActionSubCommands(_SubParsersAction):
                     f'explicit "{dest}" key. Subcommand "{subcommand}" will be used.'
                 )
 
-        # Remove extra subcommand settings
-        if subcommand:
+        # Remove extra subcommand settings (not while a config given on the command line is being loaded:
+        # the command line can still name another subcommand, whose settings from the config must survive)
+        if subcommand and require_single:
             for key in [k for k in subcommand_keys if k != subcommand]:
                 del cfg[prefix + key]
 
